@@ -81,10 +81,10 @@ def open_text_io_handle_for_reading(
             return gzip.open(handle, mode='rt', newline='', encoding=encoding)
         else:
             logger.debug(f'Looks like decompressed data')
-            return io.TextIOWrapper(handle, encoding=encoding)
+            return io.TextIOWrapper(handle, encoding=encoding, newline='')
     elif isinstance(fh, (typing.BinaryIO, io.BufferedIOBase, io.RawIOBase)):
         logger.debug(f'Looks like a binary IO')
-        return io.TextIOWrapper(fh, encoding=encoding)
+        return io.TextIOWrapper(fh, encoding=encoding, newline='')
     elif isinstance(fh, (typing.TextIO, io.TextIOBase)):
         return fh
     else:
